@@ -1856,7 +1856,11 @@ def r3_ordering_roles(corpus: Corpus, rep: Report, tier: str):
         rep.violation("C05.R3", k, base.site(init[0]), f"the level map is initialised as {short(init[0].value, 40)}: level 0 must be the document so that a first heading of any level has a parent")
     own = {upd.fq}
     rep.ok("C05.R3", f"{upd.fq}|writes {LEVEL_MAP}", upd.site(), "the level-state update (simulated above)")
-    for fi, _call in _restoring_cms(corpus, base, base.func(f"{RENDERER}.nested_render_text"))[1]:
+    _nrt = base.func(f"{RENDERER}.nested_render_text")
+    _rc, _cms3, _unw = _restoring_cms(corpus, base, _nrt)
+    if _inline_restore(_nrt, _rc, _cms3, _unw) is not None:
+        _cms3 = [(_nrt, _rc[0])]  # the bracket is written in nested_render_text itself
+    for fi, _call in _cms3:
         if writes_attr(fi.local_nodes(), LEVEL_MAP):
             own.add(fi.fq)
             rep.ok("C05.R3", f"{fi.fq}|writes {LEVEL_MAP}", fi.site(), "the save/re-root/restore of nested_render_text's context manager (judged by R4)")
@@ -2238,6 +2242,18 @@ def _restoring_cms(corpus: Corpus, base, nrt: FunctionInfo):
     return rcalls, cms, unwrapped
 
 
+def _inline_restore(nrt: FunctionInfo, rcalls, cms, unwrapped) -> ast.stmt | None:
+    """The same bracket written without a context manager: nested_render_text itself changes the heading offset and holds
+    its single _render_tokens call as a statement of its own body (set-up; [try:] render; [finally:] restore). That
+    statement then plays the role the yield plays in the generator: what reaches it is the set-up, what it reaches is the
+    restore, and the cell obligations are decided over the very same partition. None when this is not the layout."""
+    if cms or len(rcalls) != 1 or len(unwrapped) != 1 or nrt.is_generator():
+        return None
+    if not writes_attr(nrt.local_nodes(), OFFSET):
+        return None
+    return get_cfg(nrt).stmt_of(rcalls[0])
+
+
 def _post_yield_stmts(fi: FunctionInfo) -> list[ast.stmt]:
     """Statements of a generator that run after its (single) yield, in source order; plain and try/finally layouts."""
     ys = [n for n in fi.local_nodes() if isinstance(n, (ast.Yield, ast.YieldFrom))]
@@ -2260,7 +2276,11 @@ def r4_save_restore(corpus: Corpus, rep: Report, tier: str):
     # the context manager around _render_tokens
     rcalls, cms, unwrapped = _restoring_cms(corpus, base, nrt)
     k = f"{nrt.fq}|_render_tokens runs inside the restoring context manager"
-    if unwrapped:
+    pivot = _inline_restore(nrt, rcalls, cms, unwrapped)
+    if pivot is not None:
+        rep.ok("C05.R4", k, base.site(rcalls[0]), "set-up / render / restore written in nested_render_text itself (cells judged below around the render statement)")
+        cms = [(nrt, rcalls[0])]
+    elif unwrapped:
         rep.violation("C05.R4", k, base.site(unwrapped[0]), "nested_render_text renders tokens outside the context manager that saves/restores the heading offset, level map and temp root: state set for a nested render leaks into the rest of the document")
     else:
         rep.ok("C05.R4", k, base.site(rcalls[0]), f"with {cms[0][0].name}()")
@@ -2272,7 +2292,7 @@ def r4_save_restore(corpus: Corpus, rep: Report, tier: str):
     # a context manager that is a method receives nested_render_text's parameters as arguments: facts on its parameters are
     # translated to the caller's parameter names before defaults / call sites are consulted
     pmap: dict[str, str] = {}
-    if cm.parent_func is None:
+    if cm.parent_func is None and pivot is None:
         cparams = [p_ for p_ in cm.params if p_ != "self"]
         for i_, p_ in enumerate(cparams):
             arg = cm_call.args[i_] if i_ < len(cm_call.args) and not any(isinstance(a_, ast.Starred) for a_ in cm_call.args) else kwarg(cm_call, p_)
@@ -2301,10 +2321,13 @@ def r4_save_restore(corpus: Corpus, rep: Report, tier: str):
     for pname in cm.params:
         if name_assignments(cm, pname):
             raise Unsupported(f"parameter `{pname}` of {cm.qualname} is rebound")
-    ys = [n for n in cm.local_nodes() if isinstance(n, (ast.Yield, ast.YieldFrom))]
-    if len(ys) != 1:
-        raise Unsupported(f"{cm.qualname} has {len(ys)} yields")
-    yst = cfg.stmt_of(ys[0])
+    if pivot is not None:
+        yst = pivot  # the render statement stands where the generator's yield stands
+    else:
+        ys = [n for n in cm.local_nodes() if isinstance(n, (ast.Yield, ast.YieldFrom))]
+        if len(ys) != 1:
+            raise Unsupported(f"{cm.qualname} has {len(ys)} yields")
+        yst = cfg.stmt_of(ys[0])
     if cfg.guards(yst):
         raise Unsupported("the yield is conditional")
     stmts = [s for s in cm.local_nodes() if isinstance(s, ast.stmt) and s in cfg.succ]
@@ -2541,6 +2564,7 @@ def r4_save_restore(corpus: Corpus, rep: Report, tier: str):
         if any(isinstance(a, ast.Starred) for a in c.args) or any(kw.arg is None for kw in c.keywords):
             raise Unsupported(f"{fi.module.site(c)}: nested_render_text called with */** arguments")
         pidx = {p: i - 1 for i, p in enumerate(nrt.params)}
+        off_dflt = _param_defaults(nrt).get("heading_offset")
         tr = kwarg(c, "temp_root_node") or (c.args[pidx["temp_root_node"]] if len(c.args) > pidx.get("temp_root_node", 99) else None)
         ho = kwarg(c, "heading_offset") or (c.args[pidx["heading_offset"]] if len(c.args) > pidx.get("heading_offset", 99) else None)
         site = fi.module.site(c)
@@ -2653,7 +2677,8 @@ def r4_save_restore(corpus: Corpus, rep: Report, tier: str):
                     rep.violation("C05.R4", k, site, "; ".join(problems))
                 else:
                     rep.ok("C05.R4", k, site, f"heading_offset={short(ho, 60)}: inside the include the offset is the enclosing offset + the option (the enclosing offset alone without the option)")
-        elif ho is not None:
+        elif ho is not None and not (isinstance(ho, ast.Constant) and isinstance(off_dflt, ast.Constant) and type(ho.value) is type(off_dflt.value) and ho.value == off_dflt.value):
+            # (an argument that is the constant the parameter defaults to is the call without it: the offset is kept, judged above)
             rep.error("C05.R4", f"{site}: {fi.qualname} passes heading_offset: caller not understood")
     if n_off != 1:
         rep.error("C05.R4", f"expected the include mock to call nested_render_text once, found {n_off}")
